@@ -1908,6 +1908,26 @@ impl Gen {
                 form.append(&mut body);
                 self.in_procedure_or_inline(list(form), label, iv)
             }
+            16 => {
+                // the fault is handed to a macro of the program and evaluated inside its expansion
+                if !int_valued {
+                    return None;
+                }
+                let name = self.fresh("txm");
+                let shape = self.rng.upto(3);
+                let template = match shape {
+                    0 => list(vec![sym("+"), int(1), sym("a")]),
+                    1 => list(vec![sym("if"), call("=", vec![int(1), int(1)]), sym("a"), int(0)]),
+                    _ => list(vec![list(vec![sym("lambda"), list(vec![sym("v")]), call("+", vec![sym("v"), int(2)])]), sym("a")]),
+                };
+                let def = list(vec![
+                    sym("define-syntax"),
+                    sym(&name),
+                    list(vec![sym("syntax-rules"), list(vec![]), list(vec![list(vec![sym(&name), sym("a")]), template])]),
+                ]);
+                self.emit(def, "def-tx-macro", vec![], false);
+                Some((list(vec![sym(&name), e]), "macro-use".into(), true))
+            }
             8 => {
                 // many frames between the fault and the top level, none of them a tail call
                 if !int_valued {
@@ -1957,7 +1977,7 @@ impl Gen {
         let depth = self.rng.pick_weighted(&[2, 5, 3]);
         let mut top = depth == 0;
         for _ in 0..depth {
-            let ctx = self.rng.upto(16);
+            let ctx = self.rng.upto(17);
             if let Some((ne, label, iv)) = self.wrap(e.clone(), ctx, int_valued) {
                 e = ne;
                 int_valued = iv;
